@@ -7,6 +7,7 @@ import (
 	"strings"
 	"testing"
 
+	"verifsim/keys"
 	"verifsim/refagent"
 	"verifsim/sim"
 )
@@ -27,6 +28,7 @@ func runWorld(t *testing.T, o *sim.Outcome, p *GPlan, fr *fresh, exec string, ex
 		return nil
 	}
 	defer os.RemoveAll(dir)
+	keys.ResetRSA()
 	w := &world{plan: p, dir: dir, oldSig: map[string][]byte{}}
 	fail := sim.InBubble(t, func() {
 		if err := w.setupDir(); err != nil {
